@@ -207,6 +207,10 @@ def contexts(p, v):
         else:
             out.append(("decl", "%s := %s" % (pat_src(p, True), vs)))
         out.append(("switch", "switch (%s) case %s -> [\"arm\", NAMES] case _ -> \"nomatch\"" % (vs, pat_src(p, True))))
+    if not has_dflt:
+        out.append(("catch", "try (throw %s) catch %s -> [\"arm\", NAMES]" % (vs, pat_src(p, True))))
+    if not has_lit and not has_dflt:
+        out.append(("for", "for (%s <- [%s]) yield [\"arm\", NAMES]" % (pat_src(p, True), vs)))
     if not has_lit:
         if not has_dflt and p["k"] != "splat":
             one = pat_src(p, top=(p["k"] == "ann" and p["p"]["k"] in ("var", "wild")))
